@@ -69,7 +69,9 @@ class RouterHarness(h_lib.LibHarness):
             lost = True
             r = None
             ctx.panic_msg = e.msg
-        content = db.get('content').d.get(('model::Key', key))
+        cur = router.get('server')          # whatever Arc the router holds now is what later requests clone
+        db_now = cur.cell.v.get('database') if isinstance(cur, ArcV) else db
+        content = db_now.get('content').d.get(('model::Key', key))
         now = content[1].v if content else None
         info = {'input': ctx.input_desc, 'lost': lost, 'content_after': now}
         if applied_expected:
